@@ -120,7 +120,7 @@ impl Check for C06 {
         "C06"
     }
     fn plan(&self, tier: Tier) -> Plan {
-        Plan { cases: if tier == Tier::Quick { 3000 } else { 80_000 }, max_len: 6144 }
+        Plan { cases: if tier == Tier::Quick { 8_000 } else { 120_000 }, max_len: 6144 }
     }
     fn rule(&self) -> String {
         "choice sequence -> valid image (lossless Modular single frame incl. squeeze / palette / multi-group / sub-sampled extra channels / all 8 orientations; or multi-frame Modular with blending, crops, patches, reference frames; VarDCT shapes when the VarDCT writer is present) x a generated sequence of 1..6 rectangles inside the oriented image (interior, edge-touching, 1-pixel, block/group-edge aligned +-1, full) ending with the full image again; keyframes rendered in generated order after every request. Oracle: after set_image_region(r) every channel of render_frame(k).image_planar() has the rectangle's size and equals the same rectangle of the first full render within 1e-6 (times max(1,|v|) for samples outside the nominal range: at |v| = 5 one f32 ulp is already 4.8e-7); the final full render is bit-identical to the first. Non-trivial: a proper sub-rectangle was requested on an image with a neighbourhood-dependent feature (multi-group, squeeze, sub-sampled extra channel, blending offset, patches); distinct by FNV of (codestream, region choices).".into()
